@@ -3,6 +3,7 @@ package golang
 import (
 	"fmt"
 	"path/filepath"
+	"sort"
 	"strings"
 
 	"github.com/grafana/codejen"
@@ -422,6 +423,27 @@ func (jenny RawTypes) formatDefaultValue(fieldType ast.Type, resolvedFieldType a
 		jenny.typeFormatter.imports.Add("time", "time")
 
 		return fmt.Sprintf("func() time.Time { parsed, _ := time.Parse(time.RFC3339, %s); return parsed }()", formatScalar(text))
+	}
+
+	// a map is a literal of the map's own type: `map[string]string{"env": "prod"}`
+	if entries, isMap := value.(map[string]any); isMap && resolvedFieldType.IsMap() {
+		mapType := fieldType.DeepCopy()
+		mapType.Nullable = false
+
+		valueType := resolvedFieldType.AsMap().ValueType
+
+		keys := make([]string, 0, len(entries))
+		for key := range entries {
+			keys = append(keys, key)
+		}
+		sort.Strings(keys)
+
+		formatted := make([]string, 0, len(keys))
+		for _, key := range keys {
+			formatted = append(formatted, formatScalar(key)+": "+jenny.formatDefaultValue(valueType, valueType, entries[key]))
+		}
+
+		return jenny.typeFormatter.formatType(mapType) + "{" + strings.Join(formatted, ", ") + "}"
 	}
 
 	items, isList := value.([]any)
